@@ -9,6 +9,8 @@ structure SuiteState where
   eng : Store := []
   ring : Ring := Ring.new 8
   dellog : List (Bool × Bytes) := []
+  /-- the next range read / count / stream meets a transient engine error on its read of the compaction record -/
+  getFault : Bool := false
   deriving Repr
 
 def quirksOf (name : String) : Quirks :=
@@ -240,12 +242,15 @@ def stepBackend (st : SuiteState) (toks : List String) : SuiteState × String :=
   | ["get", k, r] =>
     let (hdr, kv) := doGet c st.b (unhx k) (relRev st.b.committed r)
     (st, s!"get {hdr} {okvStr kv}")
+  | ["getfault"] => ({ st with getFault := true }, "getfault ok")
   | ["list", a, b, r, lim] =>
+    if st.getFault then ({ st with getFault := false }, "list err other") else
     match doList c st.b (unhx a) (unhx b) (atou r) (atou lim) with
     | .ok res => (st, s!"list {res.hdr} {if res.more then 1 else 0} {kvsStr res.kvs}")
     | .error e => (st, s!"list err {errStr e}")
     | .panic => (st, "list PANIC")
   | ["count", a, b] =>
+    if st.getFault then ({ st with getFault := false }, "count err other") else
     match doCount c st.b (unhx a) (unhx b) with
     | .ok (hdr, n) => (st, s!"count {hdr} {n}")
     | .error e => (st, s!"count err {errStr e}")
@@ -261,6 +266,7 @@ def stepBackend (st : SuiteState) (toks : List String) : SuiteState × String :=
     (st, s!"dellog {joinOr (st.dellog.map (fun t => (if t.1 then "delcur:" else "del:") ++ hx t.2)) ","}")
   | ["parts", a, b] => (st, s!"parts {joinOr ((doPartitions c (unhx a) (unhx b)).map hx) ","}")
   | ["stream", a, b, r] =>
+    if st.getFault then ({ st with getFault := false }, s!"stream - end {atou r} other last; ends=1") else
     match doStream c st.b (unhx a) (unhx b) (atou r) with
     | .ok res => (st, s!"stream {streamStr res}")
     | .error e => (st, s!"stream err {errStr e}")
